@@ -253,7 +253,10 @@ fn generate(cli: &Cli) -> (Vec<Case>, Vec<String>) {
             // keep-alive periods: a frame that was swallowed or a stream that lost its framing shows
             // up as a missed echo (timeout Disconnect instead of the Transfer)
             let lat = if stage < 2 { [2_000, 2_000, 40_000] } else { [2_000, 2_000, 2_000] };
-            let spec = BaseSpec { name: "race", intent: Intent::Login, secret: true, lat, extras: vec![(completion_ms - 100, pkt.clone())], no_target: false, ci_delay_ms: 0 };
+            // a later, complete frame: if the raced frame lost bytes the stream is misaligned and
+            // this one is misparsed (error instead of the Transfer)
+            let follow_up = Pkt::ResourcePackResponse { uuid: 0x0102_0304_0506_0708_090a_0b0c_0d0e_0f10, result: 3 };
+            let spec = BaseSpec { name: "race", intent: Intent::Login, secret: true, lat, extras: vec![(completion_ms - 100, pkt.clone()), (completion_ms + 1_000, follow_up.clone())], no_target: false, ci_delay_ms: 0 };
             let base = build_base(&spec, cli.seed ^ 0xf4 ^ (stage as u64) << 8);
             let brun = run(&base);
             let Some(sent) = brun.client.sent.iter().find(|s| s.label.starts_with("Extra")) else {
@@ -279,7 +282,7 @@ fn generate(cli: &Cli) -> (Vec<Case>, Vec<String>) {
             // three segments: the length prefix (and a bit), a part of the body, the rest — the
             // completion lands between the second and the third (frame starts 100 ms earlier:
             // segments at -200 ms, -100 ms, +100 ms around the completion)
-            let spec3 = BaseSpec { name: "race3", intent: Intent::Login, secret: true, lat, extras: vec![(completion_ms - 200, pkt.clone())], no_target: false, ci_delay_ms: 0 };
+            let spec3 = BaseSpec { name: "race3", intent: Intent::Login, secret: true, lat, extras: vec![(completion_ms - 200, pkt.clone()), (completion_ms + 1_000, follow_up.clone())], no_target: false, ci_delay_ms: 0 };
             let base3 = build_base(&spec3, cli.seed ^ 0xf4 ^ (stage as u64) << 8);
             let brun3 = run(&base3);
             if let Some(sent3) = brun3.client.sent.iter().find(|s| s.label.starts_with("Extra")) {
@@ -456,7 +459,7 @@ fn evaluate(cli: &Cli, report: &mut Report, cases: Vec<Case>) {
             let first = tb.iter().zip(tv.iter()).position(|(a, b)| a != b).unwrap_or(tb.len().min(tv.len()));
             findings.push((
                 format!("trace-differs/{}", c.shape),
-                format!("the segmented/timed run behaves differently from the unsegmented run: baseline {:?} vs variant {:?}", tb.get(first), tv.get(first)),
+                format!("the segmented/timed run behaves differently from the unsegmented run: baseline {:.90?} vs variant {:.90?}", tb.get(first).map(|s| s.chars().take(80).collect::<String>()), tv.get(first).map(|s| s.chars().take(80).collect::<String>())),
                 witness(&c.variant, &v, json!({"baseline_trace": tb, "variant_trace": tv, "segmentation": format!("{:?}", c.variant.client.seg), "read_plan": format!("{:?}", c.variant.read_plan), "write_plan": format!("{:?}", c.variant.write_plan)})),
             ));
         }
